@@ -76,7 +76,7 @@ func runC05(cfg Cfg, keys []string, ops []Op, res *TaskResult) *Violation {
 	var v *Violation
 	staged := 0
 	err := w.guard(func() error {
-		b := w.DB.NewBatch(kv.BatchOptions{})
+		b := w.DB.NewBatch(kv.BatchOptions{Sync: c05BatchSync})
 		committed := false
 		defer func() {
 			if !committed && !w.Dead {
@@ -217,19 +217,24 @@ func runC05(cfg Cfg, keys []string, ops []Op, res *TaskResult) *Violation {
 	return nil
 }
 
+// c05BatchSync: BatchOptions.Sync of the batch under exploration (set per task; the overflow path differs).
+var c05BatchSync bool
+
 func c05Tasks(tier string) []Task {
 	preDepth, stageDepth, dev := 2, 4, 2
 	cfgs := []Cfg{defaultCfg}
 	c200 := defaultCfg
 	c200.FileSize = 200
-	cfgs = append(cfgs, c200)
+	cb := defaultCfg
+	cb.Index = 1 // B-tree and skip list keep the key slice handed to them: pooled records must not recycle it
+	cs := c200
+	cs.Index = 2
+	cfgs = append(cfgs, c200, cb, cs)
 	if tier == "thorough" {
-		preDepth, stageDepth, dev = 3, 6, 3
-		cb := defaultCfg
-		cb.Index = 1
+		preDepth, stageDepth, dev = 3, 5, 3
 		cm := defaultCfg
 		cm.IO = 1
-		cfgs = append(cfgs, cb, cm)
+		cfgs = append(cfgs, cm)
 	}
 	var pres [][]Op
 	var gen func(p []Op)
@@ -244,11 +249,13 @@ func c05Tasks(tier string) []Task {
 	}
 	gen(nil)
 	var tasks []Task
-	for _, cfg := range cfgs {
+	for ci, cfg := range cfgs {
 		for _, pre := range pres {
 			cfg, pre := cfg, pre
+			syncOpt := ci%2 == 1 // alternate configurations use BatchOptions{Sync:true}
 			level := fmt.Sprintf("pre<=%d-stage%d-dev%d", preDepth, stageDepth, dev)
-			tasks = append(tasks, Task{Level: level, Name: fmt.Sprintf("%s pre=[%s]", cfg, traceString(pre)), Fn: func(res *TaskResult) {
+			tasks = append(tasks, Task{Level: level, Name: fmt.Sprintf("%s sync=%v pre=[%s]", cfg, syncOpt, traceString(pre)), Fn: func(res *TaskResult) {
+				c05BatchSync = syncOpt
 				alpha := c05Stage()
 				enumSeq(alpha, stageDepth, dev, nil, func(seq []Op) bool {
 					ops := append(append(append([]Op{}, pre...), Op{K: "begin"}), seq...)
@@ -282,7 +289,7 @@ func init() {
 		Engine: "seq",
 		Rule:   "all pre-histories (<= pre depth) x all staging sequences (depth, deviation bound) with Batch.Get of every key after every staging step, Commit, 5 reuse attempts, restart; non-trivial = a value lives in a rotated file and one key is staged more than once",
 		Assumptions: []string{
-			"key universe {a,b,c}; DataFileSize 130 (2 staged S puts overflow mid-way) and 200 (3 do)",
+			"key universe {a,b,c}; DataFileSize 130 (2 staged S puts overflow mid-way) and 200 (3 do); hash map, B-tree and skip-list index; BatchOptions.Sync false and true (alternating configurations)",
 			"a Commit of a batch that staged nothing is also treated as a committed batch (reuse must be rejected)",
 		},
 		Tasks: c05Tasks,
